@@ -185,7 +185,8 @@ func TestC23(t *testing.T) {
 		"peer interfaces from {with remote id A, with remote id B, without remote id, unknown} x EPIC on/off; part C: MaxExpTime " +
 		"{0,1,63,254,255} x timestamp-now {0,-10s,-1h,-6h,+10s} x signer sets (one signer: NotAfter-(ts+max lifetime) " +
 		"in {-unit-1s,-1s,0,+1s,+1d} x NotBefore-ts in {-1h,0,+1s}; two signers: all ordered pairs of the NotAfter deltas, second on " +
-		"P-384). One case = one Extend call judged field by field; non-trivial = every case (all inputs pairwise different)"
+		"P-384); part D: every ordered list of 2 and 3 signers (own key per position) over {covering, starting 1s after the " +
+		"timestamp} x NotAfter-(ts+max lifetime) {-1s,+1s,+1d} (quick: every third 3-list). One case = one Extend call judged field by field; non-trivial = every case (all inputs pairwise different)"
 	synctest.Test(t, func(t *testing.T) { c23Run(r) })
 	r.Finish(5)
 }
@@ -324,6 +325,57 @@ func c23Run(r *mc.Run) {
 		}
 	}
 
+	// part D: signer lists. Every ordered list of 2 and (thorough: all, quick: every third) 3 signers drawn from
+	// {covering, certificate starting 1 s after the timestamp} x NotAfter-(ts+max lifetime) in {-1s,+1s,+1d}; every position
+	// has its own key, so the list ORDER is part of the case.
+	{
+		k3 := pkigen.Key("c23-local-3")
+		keysD := []*ecdsa.PrivateKey{k1, k2, k3}
+		algsD := []signed.SignatureAlgorithm{signed.ECDSAWithSHA256, signed.ECDSAWithSHA384, signed.ECDSAWithSHA256}
+		type sigType struct {
+			nb, dna time.Duration
+		}
+		var types []sigType
+		for _, nb := range []time.Duration{-time.Hour, time.Second} {
+			for _, dna := range []time.Duration{-time.Second, time.Second, 24 * time.Hour} {
+				types = append(types, sigType{nb, dna})
+			}
+		}
+		var lists [][]int
+		for a := range types {
+			for b := range types {
+				lists = append(lists, []int{a, b})
+				for c := range types {
+					if mc.Thorough() || (a*36+b*6+c)%3 == 0 {
+						lists = append(lists, []int{a, b, c})
+					}
+				}
+			}
+		}
+		for _, l := range []int{0, 2} {
+			for _, maxExp := range []uint8{0, 63, 255} {
+				life := time.Duration(int(maxExp)+1) * c24Unit
+				for _, off := range []time.Duration{-10 * time.Second, -time.Hour} {
+					ts := now.Add(off)
+					for _, lst := range lists {
+						var sg []c23Signer
+						d := "signer list"
+						for i, ti := range lst {
+							tp := types[ti]
+							sg = append(sg, c23Signer{fmt.Sprintf("s%d", i+1), keysD[i], algsD[i], ts.Add(tp.nb), ts.Add(life + tp.dna)})
+							d += fmt.Sprintf(" [NotBefore=ts%+v NotAfter=ts+maxlife%+v]", tp.nb, tp.dna)
+						}
+						c := c23Case{l: l, ts: ts, ingress: c23IfParent, egress: c23IfChild, maxExp: maxExp, signers: sg, part: "signer-lists", description: d}
+						if l == 0 {
+							c.ingress = 0
+						}
+						cases = append(cases, c)
+					}
+				}
+			}
+		}
+	}
+
 	nonMaximal, notLatest := 0, 0
 	for ci, c := range cases {
 		ps, err := prior(c.ts, c.l)
@@ -450,6 +502,12 @@ func c23Run(r *mc.Run) {
 		}
 		if used != best {
 			notLatest++
+		}
+		// the entry has to be verifiable: the signer that signed must be one whose validity covers [timestamp, now]
+		// (segment verification binds the certificate validity to start at the segment timestamp)
+		if used.nb.After(c.ts) || now.After(used.na) {
+			viol("signed-by-signer-not-covering-timestamp", fmt.Sprintf("entry signed by %s valid [%v, %v], which does not cover [timestamp %v, now %v]; covering signer available: %s",
+				used.name, used.nb, used.na, c.ts, now, best.name))
 		}
 		// expiry bounds
 		checkExp := func(what string, exp uint32) {
